@@ -3,7 +3,11 @@ package props
 import (
 	"fmt"
 	"net"
+	"strings"
 	"time"
+
+	"github.com/cuteLittleDevil/go-jt808/service"
+	"github.com/cuteLittleDevil/go-jt808/shared/consts"
 	"verif/harness/internal/frames"
 	"verif/harness/internal/fw"
 )
@@ -230,21 +234,25 @@ var C14 = &fw.Prop{ID: "C14",
 		genRereqSock(r, tier, emit)
 	},
 	Oracle: func(c fw.Case) *fw.OracleFailure {
-		if c.Op == "rereqsock" {
+		if c.Op == "rereqsock" || c.Op == "rereqcmd" {
 			return nil // the count is fixed by the specification (functional op): a divergence from the model is the failing input
 		}
 		return oracleParse(c)
 	},
 	Exec: func(c fw.Case) string {
 		if c.Op == "rereqsock" {
-			res, _ := execRereqSock(c.Args[0])
+			res, _ := execRereqSock(c.Args[0], false)
+			return res
+		}
+		if c.Op == "rereqcmd" {
+			res, _ := execRereqSock(c.Args[0], true)
 			return res
 		}
 		return execParse(c)
 	},
 	Class: func(c fw.Case, res string) string {
-		if c.Op == "rereqsock" {
-			return "rereqsock"
+		if c.Op == "rereqsock" || c.Op == "rereqcmd" {
+			return c.Op
 		}
 		return classParse(c, res)
 	}}
@@ -253,7 +261,9 @@ var C14 = &fw.Prop{ID: "C14",
 // Many transfers (different message IDs) on one connection, each missing a packet; after 5.2 s of silence the
 // next inbound message must produce one 0x8003 per transfer — none may be dropped because several are due at once.
 
-func execRereqSock(sess string) (string, *fw.OracleFailure) {
+// withCmd: while the transfers are pending the platform issues a command to the terminal (which never answers it): the
+// writer stamps the command's ID and serial into the session's header — the header of the connection's first message
+func execRereqSock(sess string, withCmd bool) (string, *fw.OracleFailure) {
 	convStart()
 	convMu.Lock()
 	defer convMu.Unlock()
@@ -278,12 +288,21 @@ func execRereqSock(sess string) (string, *fw.OracleFailure) {
 			}
 		}
 	}
-	for _, ch := range decodeSession(sess) {
+	for k, ch := range decodeSession(sess) {
 		if ch.dt > 0 {
 			readFor(time.Duration(ch.dt) * time.Millisecond)
 		}
 		if _, err := c.Write(ch.data); err != nil {
 			break
+		}
+		if withCmd && k == 0 {
+			if fsx, _ := splitFrames(ch.data); len(fsx) > 0 {
+				if h, _, ok := frames.Parse(fsx[0]); ok {
+					key := strings.TrimLeft(fmt.Sprintf("%x", h.Phone), "0")
+					readFor(150 * time.Millisecond)
+					go convServer.SendActiveMessage(service.NewActiveMessage(key, consts.P8104QueryTerminalParams, nil, 300*time.Millisecond))
+				}
+			}
 		}
 	}
 	readFor(800 * time.Millisecond)
@@ -313,5 +332,16 @@ func genRereqSock(r *fw.Rng, tier string, emit func(fw.Case)) {
 		}
 		hb := frames.Build(frames.H{ID: 0x0002, Phone: phone, Serial: 999}, nil)
 		emit(fw.Case{Op: "rereqsock", Args: []string{encodeSession([]pchunk{{0, first}, {5200, hb}})}})
+		if k == counts[0] { // the same with a platform command issued while the transfers are pending
+			phone2 := frames.RandPhone(r, false)
+			var f2 []byte
+			for i := 0; i < 3; i++ {
+				for _, no := range []uint16{1, 3} {
+					f2 = append(f2, frames.Build(frames.H{ID: ids[i], Phone: phone2, Serial: uint16(10*i) + no, Frag: true, Sum: 3, No: no}, r.Bytes(20))...)
+				}
+			}
+			hb2 := frames.Build(frames.H{ID: 0x0002, Phone: phone2, Serial: 999}, nil)
+			emit(fw.Case{Op: "rereqcmd", Args: []string{encodeSession([]pchunk{{0, f2}, {5200, hb2}})}})
+		}
 	}
 }
